@@ -998,6 +998,23 @@ func (sc *SpecCtx) evalCall(e *ECall) (Val, error) {
 		}
 		vc.declareFun("blen_", []string{"Int"}, "Int")
 		return Val{T: app("blen_", sc.term(v)), Ty: types.Typ[types.Int]}, nil
+	case "errhas":
+		// errhas(err, "lit"): the text of the error contains the literal (same ghost as strings.Contains(err.Error(), "lit"))
+		if len(e.Args) != 2 {
+			return Val{}, fmt.Errorf("errhas(err, \"literal\")")
+		}
+		lit, ok := e.Args[1].(*EStr)
+		if !ok {
+			return Val{}, fmt.Errorf("errhas: the second argument must be a string literal")
+		}
+		v, err := sc.eval(e.Args[0])
+		if err != nil {
+			return Val{}, err
+		}
+		fnm := "contains$" + lit.V
+		vc.declareFun(fnm, []string{"Int"}, "Bool")
+		vc.declareFun("errtext_", []string{"Iface"}, "Int")
+		return Val{T: app(smtName(fnm), app("errtext_", sc.term(v))), Ty: types.Typ[types.Bool]}, nil
 	case "hassuffix":
 		// hassuffix(s, "lit"): the string s ends with the literal
 		if len(e.Args) != 2 {
